@@ -1,11 +1,15 @@
 #!/bin/bash
-# run_on_mutant.sh <seed_id> <prop> [tier] [extra check args]: apply seeded patch to /repo, run the check, always revert.
+# run_on_mutant.sh <seed_id> <prop> [tier] [extra check args]
+# Runs the check against a scratch COPY of /repo's working tree with the seeded patch
+# applied (VERIF_REPO), so /repo itself is never left modified while other checks run.
 sid=$1; prop=$2; tier=${3:-quick}; shift 3
 cd /verif
-[ -z "$(git -C /repo status --porcelain)" ] || { echo "/repo dirty"; exit 9; }
-git -C /repo apply /verif/seeded/$sid/patch.diff || exit 9
-out=$(./check $prop --tier $tier --no-evidence "$@" 2>/tmp/run_on_mutant.$sid.err); rc=$?
-git -C /repo checkout -- . ; git -C /repo clean -fdq
+mr=/var/tmp/mutrepo-$sid-$$
+rm -rf $mr; mkdir -p $mr
+rsync -a --exclude /target --exclude .git /repo/ $mr/
+( cd $mr && git apply /verif/seeded/$sid/patch.diff ) || { echo "[$sid] patch does not apply to the current tree"; rm -rf $mr; exit 9; }
+out=$(VERIF_REPO=$mr ./check $prop --tier $tier --no-evidence "$@" 2>/tmp/run_on_mutant.$sid.err); rc=$?
+rm -rf $mr
 echo "$out"
 echo "[$sid on $prop/$tier] exit=$rc"
 python3 - "$sid" "$prop" "$tier" "$rc" "$out" <<'PY'
